@@ -532,7 +532,23 @@ impl World {
         })
     }
 
+    /// Every mutation / deletion is followed by an asynchronous `ComputeDailyLog` (database actor → writer thread). A request
+    /// served before it has run would read the log of a moment ago; the model speaks of the log after that computation,
+    /// so the harness waits: one round trip through the actor (FIFO) and one through the writer (FIFO).
+    async fn settle_daily_log(&self) {
+        struct Noop {}
+        impl discret::verif_hooks::database::sqlite_database::Writeable for Noop {
+            fn write(&mut self, _conn: &rusqlite::Connection) -> Result<(), rusqlite::Error> {
+                Ok(())
+            }
+        }
+        let _ = self.svc.datamodel().await;
+        let _ = self.svc.db.writer.write(Box::new(Noop {})).await;
+        let _ = self.svc.datamodel().await;
+    }
+
     async fn query(&mut self, kv: &Kv, stats: &mut Stats) -> String {
+        self.settle_daily_log().await;
         let c = match get_u(kv, "c") {
             Some(c) if self.conns.contains_key(&c) => c,
             _ => return "bad-op".into(),
